@@ -1,6 +1,8 @@
 // nixutil.hpp - helpers around the nix API and raw HDF5 access shared by the harnesses
 #pragma once
 #include <nix.hpp>
+#include <nix/util/dataAccess.hpp>
+#include <nix/util/util.hpp>
 #include <hdf5.h>
 
 #include <fstream>
